@@ -156,6 +156,8 @@ EMIT = "func Emit[T any](ctx context.Context, cap int, frequency time.Duration, 
 mut('C11-emit-shared-index', 'C11', P, EMIT, "var (\n\temitMu  sync.Mutex\n\temitSeq int\n)\n\n" + EMIT.replace("\tgo func() {\n\t\tdefer close(out)", "\temitMu.Lock()\n\temitSeq = 0\n\temitMu.Unlock()\n\n\tgo func() {\n\t\tdefer close(out)").replace("\t\tfor i := 0; true; i++ {\n\t\t\ttime.Sleep(frequency)\n\n\t\t\tval, err = f.Apply(i)\n", "\t\tfor {\n\t\t\ttime.Sleep(frequency)\n\n\t\t\temitMu.Lock()\n\t\t\ti := emitSeq\n\t\t\temitSeq++\n\t\t\temitMu.Unlock()\n\t\t\tval, err = f.Apply(i)\n"), 'the index lives in a package-level variable: correct for one Emit at a time')
 mut('C05-fold-seeds-with-first-element', 'C05', P, "\t\tacc := m.Empty()\n\n\t\tvar x A\n\t\tfor x = range in {\n\t\t\tacc = m.Combine(acc, x)", "\t\tacc := m.Empty()\n\t\tfirst := true\n\n\t\tvar x A\n\t\tfor x = range in {\n\t\t\tif first {\n\t\t\t\tacc, first = x, false\n\t\t\t\tcontinue\n\t\t\t}\n\t\t\tacc = m.Combine(acc, x)", 'saves one Combine: empty <> x == x; the accumulator aliases the first element of the caller')
 mut('C09-try-pipef-lifts', 'C09', 'pipe/fork/function.go', "func (f try[A, B]) pipef() pipe.F[A, B] {\n\treturn pipe.Try(f)", "func (f try[A, B]) pipef() pipe.F[A, B] {\n\treturn pipe.Lift(f)", 'fork.Try handed to a delegating stage aborts instead of continuing')
+mut('C09-partition-nil-on-error', 'C09', FK, "\t\tsel := func(x bool, err error) chan<- A {\n\t\t\tif x && err == nil {\n\t\t\t\treturn lout\n\t\t\t}\n\t\t\treturn rout\n\t\t}", "\t\tsel := func(x bool, err error) chan<- A {\n\t\t\tif err != nil {\n\t\t\t\treturn nil\n\t\t\t}\n\t\t\tif x {\n\t\t\t\treturn lout\n\t\t\t}\n\t\t\treturn rout\n\t\t}", 'a failing predicate parks the worker on a nil channel')
+mut('C06-filter-returns-on-error', 'C06', P, "\t\t\tif take, err := f.Apply(a); take && err == nil {\n\t\t\t\tselect {\n\t\t\t\tcase out <- a:\n\t\t\t\tcase <-ctx.Done():\n\t\t\t\t\treturn\n\t\t\t\t}\n\t\t\t}\n\t\t}\n\t}()\n\n\treturn out\n}\n\n// ForEach", "\t\t\ttake, err := f.Apply(a)\n\t\t\tif err != nil {\n\t\t\t\tselect {}\n\t\t\t}\n\t\t\tif take {\n\t\t\t\tselect {\n\t\t\t\tcase out <- a:\n\t\t\t\tcase <-ctx.Done():\n\t\t\t\t\treturn\n\t\t\t\t}\n\t\t\t}\n\t\t}\n\t}()\n\n\treturn out\n}\n\n// ForEach", 'Filter blocks forever when its predicate returns an error')
 
 EQUIVALENT = {'C02-no-container-check', 'C04-codec-get-skips-fmap', 'C06-throttle-data-no-ctx', 'C15-map-stale-key', 'C05-filter-or', 'C05-partition-swapped-capacity', 'C10-empty-counted-per-worker', 'C14-foreach-swallows-last-error', 'C19-slice-cons-append', 'C04-setter-get-leaks'}
 
